@@ -37,8 +37,54 @@ def prop(pid, **kw):
     PROPS[pid] = dict(id=pid, verus=[], kani=[], assumptions=[], bounded=[], not_covered='') | kw
 
 
+COMMON_V = ['A-extraction', 'A-tracing', 'A-pin', 'A-core', 'A-hashmap', 'A-verifiers']
+TECH_V = 'Verus: contracts (requires/ensures/loop invariants, ghost effect log and wire log) on the real functions, extracted mechanically from /repo on every run'
+TECH_K = 'Kani/CBMC: assume(requires); one call of the real function; assert(ensures) over full-domain symbolic inputs, harness mounted in the real crate under cfg(kani)'
+
+prop('C01', title='Responses reach exactly the call that asked',
+     verus=['client'], technique=TECH_V,
+     assumptions=COMMON_V + ['A-oneshot', 'A-mpsc', 'A-ids', 'A-pair', 'A-delayqueue', 'A-sink'],
+     level_text='Deductive proof over all table states, ids and responses: complete_request/complete/pump_read deliver a response body only to the oneshot channel stored under the response\'s own id, remove exactly that entry, and leave view, timers and effect log untouched for an unknown id; the write pump only ever delivers errors; insert stores exactly the given sender under the id written to the wire. Every history is a sequence of these contracted calls (single-owner dispatch), so the per-call clauses + dispatch invariant give the property for all interleavings.',
+     level_note='The pairing of a call with its oneshot receiver (Channel::call) and tokio\'s oneshot delivery are assumed (A-pair, A-oneshot).',
+     not_covered='that tokio delivers the value sent on a oneshot to the paired receiver')
+prop('C02', title='Every call terminates; no wakeup is lost',
+     verus=['client'], technique=TECH_V + ' (safety proxy: Pending => wake source armed)',
+     assumptions=COMMON_V + ['A-oneshot', 'A-mpsc', 'A-delayqueue', 'A-sink'],
+     level_text='Only the safety proxy is proved: every poll function of the client dispatch that returns Pending has, at that return, registered the waker with its own event source or is blocked behind a transport registration (flush/ready) or the in-flight capacity, and the run loop returns Pending only with the read side registered and timers registered when anything is in flight. Liveness proper (fair executor, wake => re-poll) is argued on paper and listed as unchecked.',
+     level_note='Liveness is not decidable by this technique; dependency models are assumed to register the waker whenever they answer Pending.',
+     not_covered='liveness proper; caller-side oneshot wake; server handler wake-ups; executor fairness; a transport registration superseded within the same poll (argued on paper: the superseding Ready implies a wake was issued during this poll)')
+prop('C03', title='Abandoned calls are cancelled on the wire, exactly when needed',
+     verus=['client'], technique=TECH_V,
+     assumptions=COMMON_V + ['A-oneshot', 'A-mpsc', 'A-ids', 'A-sink', 'A-delayqueue'],
+     level_text='Proof that a request is yielded for writing only if its receiver was not seen closed; that a Cancel is written only for an id that is in flight (hence after its Request: dispatch invariant has_req) and removes it from the table (hence at most once); that a request whose write failed is removed (no later cancel).',
+     level_note='ResponseGuard::drop ordering (close before cancel) is in unit client_guard when registered; until then it is an assumption.',
+     not_covered='data races inside tokio close/send')
+prop('C05', title='Client enforces request deadlines, never early',
+     verus=['client'], kani=['k3_time_until_is_saturating_difference', 'k3_max_timer_delay_value'], technique=TECH_V + '; ' + TECH_K,
+     assumptions=COMMON_V + ['A-delayqueue', 'A-oneshot', 'A-clock'],
+     level_text='Proof that insert_request arms exactly one timer for this id with delay min(deadline - now, MAX_TIMER_DELAY); that an expiry removes exactly the entry of the id its timer carried and delivers DeadlineExceeded to that entry\'s channel only; that a processed reply removes the timer (no later expiry); that pump_write polls expirations on every pass. Kani proves on the real code that time_until is the saturating difference for all instants.',
+     level_note='Timer accuracy (never early, eventually fires) is tokio-util\'s (A-delayqueue).')
+prop('C07', title='Deadlines propagate across hops without stretching',
+     verus=['client'], kani=['k2_deadline_written_as_remaining_time', 'k2_deadline_decode_total_and_shifted', 'k2_deadline_shift_law', 'k2_default_deadline_ten_seconds', 'k3_time_until_is_saturating_difference'],
+     technique=TECH_K + '; ' + TECH_V,
+     assumptions=['A-codec', 'A-clock', 'A-verifiers', 'A-extraction'],
+     level_text='CBMC proof over all instants now1 <= now2 and all deadlines of the real serialize/deserialize: written duration = saturating D - now1; decoded D\' = now2 + duration; D\' >= D, D\' - D = transit, passed deadline arrives as now; default = now + 10 s. Verus proves the request written to the wire carries the caller\'s context (deadline forwarded unchanged).',
+     level_note='Codecs carrying a Duration faithfully and serde_derive\'s default handling are assumed (A-codec).',
+     not_covered='context::current() inside a handler without an OpenTelemetry layer; the derived Context::deserialize with the field omitted')
+prop('C09', title='Transport failures are contained and reported',
+     verus=['client'], technique=TECH_V,
+     assumptions=COMMON_V + ['A-sink', 'A-oneshot', 'A-mpsc', 'A-delayqueue'],
+     level_text='Proof that each transport wrapper tags a failure with its activity and that the tag survives `?` up to run(); that a failed request write removes and fails only that call and is not fatal; that start_send is never reached after a reported failure (its precondition); panic freedom of every extracted function (expect/unwrap/DelayQueue preconditions discharged).',
+     level_note='complete_all_requests + the terminal drain loop, Future::poll\'s dyn-Any downcast and the server side are not yet under contract.',
+     not_covered='shut_down_with_terminal_error (iterator adaptor out of reach: assumed), server channel error paths (unit server)')
+prop('C10', title='Shutdown is orderly: queued work is drained first',
+     verus=['client'], technique=TECH_V,
+     assumptions=COMMON_V + ['A-sink', 'A-mpsc', 'A-oneshot', 'A-delayqueue'],
+     level_text='Proof that pump_write returns Ready(None) only when both queues are drained, the transport is closed and nothing is unflushed (invariant: closed => both queues drained); that run() returns Ok only if the read side ended or the write side closed with an empty table.',
+     level_note='That dropping the dispatch future fails the remaining callers is Rust drop glue + A-oneshot.',
+     not_covered='server side (unit server)')
 prop('C11', title='Tracked request state is bounded and fully reclaimed',
-     verus=['client_table'],
+     verus=['client'],
      technique='Verus: representation invariant (timers<->entries bijection) + whole-view postconditions on the real table functions, extracted from /repo each run',
      level_text='Deductive proof, for all table states and all ids, that every public operation of the real in-flight tables preserves the timers<->entries bijection and changes the abstract view exactly as specified; the history quantifier is discharged by the invariant (every call sequence is a sequence of contracted calls).',
      level_note='Proof is about the extracted text (rules logged per run) against trusted models of HashMap/DelayQueue/oneshot.',
@@ -51,3 +97,23 @@ prop('C15', title='Shipped transports deliver messages intact and in order',
      kani=['k1_errorkind_written_as_u32_code', 'k1_errorkind_read_total_and_table', 'k1_errorkind_round_trip'],
      assumptions=['A-codec', 'A-verifiers'],
      not_covered='length-delimited framing under fragmentation, serde-derived schemas, FIFO of the tokio/futures queues and end-of-stream signalling are dependency code (A-codec, A-mpsc): not claimed')
+
+prop('C14', title="tarpc honours the pluggable transport's contract",
+     verus=['client'], technique=TECH_V + '; the transport model\'s start_send preconditions are the property\'s write conditions',
+     assumptions=COMMON_V + ['A-sink', 'A-mpsc'],
+     level_text='Proof that every start_send call site of the client dispatch establishes ready && !failed && !closed; that pump_write/run go idle only with unflushed == 0 or the flush waker registered; and the bounded-retry clause: ensure_writeable polls readiness at most twice per call (ghost counter np) and returns Pending with a transport waker registered.',
+     level_note='Server channel and throttler call sites are in unit server when registered.',
+     not_covered='server-side call sites until unit server is registered')
+prop('C16', title='No peer-supplied input can crash an endpoint',
+     verus=['client'], kani=['k2_deadline_decode_total_and_shifted', 'k3_time_until_is_saturating_difference', 'k3_max_timer_delay_value', 'k1_errorkind_read_total_and_table'],
+     technique=TECH_V + '; ' + TECH_K,
+     assumptions=COMMON_V + ['A-delayqueue', 'A-clock', 'A-codec'],
+     level_text='Panic freedom as proof obligations: DelayQueue::insert/remove preconditions (range, key present) discharged at every call site from the table invariant and the clamp; unknown ids change nothing; decoding any deadline duration or error code is total (CBMC, full domain).',
+     level_note='Malformed frames are the codec\'s (dependency); the rpc.deadline span field rendering is not yet under contract.',
+     not_covered='rpc.deadline tracing field arithmetic (R12), server table (unit server)')
+prop('C18', title='Trace context follows the request, and only that request',
+     verus=['client'], technique=TECH_V,
+     assumptions=COMMON_V + ['A-otel', 'A-sink'],
+     level_text='Proof that the Request written carries exactly the context stored in the table under its id, and that the Cancel for an id carries the trace context stored for that id (same trace id, sampling and span id); contexts live in the entry of their own id (frame clauses), so concurrent requests cannot exchange them.',
+     level_note='Child-context derivation (new_child, server start_request) is in K6/unit server when registered.',
+     not_covered='OpenTelemetry bridge')
